@@ -182,6 +182,8 @@ void __wrap_pthread_exit(void* r)
 int __real___cxa_guard_acquire(uint64_t*);
 void __real___cxa_guard_release(uint64_t*);
 void __real___cxa_guard_abort(uint64_t*);
+// One-time initialisers must not make a run's step count depend on what the process executed before:
+// the guard itself is not a schedule point and the initialiser runs with schedule points suppressed.
 int __wrap___cxa_guard_acquire(uint64_t* gd)
 {
 	if (!simThread() || inRt)
@@ -189,13 +191,13 @@ int __wrap___cxa_guard_acquire(uint64_t* gd)
 	volatile char* b = (volatile char*)gd;
 	if (b[0])
 		return 0;
-	sp();
 	RtScope r;
 	while (b[1])
 		blockOn(BK_MUTEX, gd, -1, false);
 	if (b[0])
 		return 0;
 	b[1] = 1;
+	self->noSched++;
 	return 1;
 }
 void __wrap___cxa_guard_release(uint64_t* gd)
@@ -206,6 +208,8 @@ void __wrap___cxa_guard_release(uint64_t* gd)
 	volatile char* b = (volatile char*)gd;
 	b[0] = 1;
 	b[1] = 0;
+	if (self->noSched > 0)
+		self->noSched--;
 	wakeAll(BK_MUTEX, gd);
 }
 void __wrap___cxa_guard_abort(uint64_t* gd)
@@ -215,6 +219,8 @@ void __wrap___cxa_guard_abort(uint64_t* gd)
 	RtScope r;
 	volatile char* b = (volatile char*)gd;
 	b[1] = 0;
+	if (self->noSched > 0)
+		self->noSched--;
 	wakeAll(BK_MUTEX, gd);
 }
 
